@@ -546,6 +546,21 @@ func genC17(c *lp.Ctx) {
 			d = -d
 		}
 		c.Hit(fmt.Sprintf("prefix-delta:%d", d))
+		// C17_prefix_exact_common_byte: at least two keys that share their first byte — the root already
+		// carries a step, and a longer step costs nothing: the size must be EQUAL
+		shared := len(ks.Keys) >= 2
+		for _, k := range ks.Keys {
+			if len(k) == 0 || k[0] != ks.Keys[0][0] {
+				shared = false
+				break
+			}
+		}
+		if shared {
+			c.Hit("prefix:root-has-step(size-must-be-equal)")
+			if d != 0 {
+				cs.viol(c, "prepending a common prefix to keys that already share their first byte leaves the size equal", "trie.marshal", fmt.Sprint(l), m2)
+			}
+		}
 		if d > 16 {
 			// Known finding K1 is identified by its mechanism: the root gains a step, so every entry
 			// of the InnerPrefixes presence rank index grows by one and entries crossing a varint
